@@ -1406,6 +1406,8 @@ ecdsa_verify(ec_curve_p curve, bn_p hash, bn_p sign_r, bn_p sign_s,
 	    bn_cmp(sign_r, &curve->n) >= 0 ||
 	    bn_cmp(sign_s, &curve->n) >= 0) /* sign_r and sign_s check: [1, n - 1]. */
 		return (EINVAL);
+	if (0 != ec_point_is_at_infinity(pub_key)) /* O is not a public key. */
+		return (EINVAL);
 	/* Double size + 1 digit. */
 	bits = EC_CURVE_CALC_BITS_DBL(curve);
 	/* Init */
@@ -1579,7 +1581,8 @@ ecdsa_verify_priv_key(ec_curve_p curve, bn_p hash, bn_p sign_r, bn_p sign_s,
 	    bn_cmp(sign_r, &curve->n) >= 0 ||
 	    bn_cmp(sign_s, &curve->n) >= 0) /* sign_r and sign_s check: [1, n - 1]. */
 		return (EINVAL);
-	if (bn_cmp(priv_key, &curve->n) >= 0) /* Key check. */
+	if (0 != bn_is_zero(priv_key) ||
+	    bn_cmp(priv_key, &curve->n) >= 0) /* Key check: [1, n - 1]. */
 		return (EINVAL);
 	/* Double size + 1 digit. */
 	bits = EC_CURVE_CALC_BITS_DBL(curve);
